@@ -189,6 +189,41 @@ theorem lookup_finds_partial (W : World) (uuid : Str) (root b : Ast) (name : Str
   · exact lookup_generic W uuid root b name lookConst File.consts Const.name (fun p s => uuidConst uuid (descConst p s)) (look_const uuid) huuid hreg hc hwf hne hb hnd hname
   · exact lookup_generic W uuid root b name lookService File.services Service.name (fun p s => uuidService uuid (descService p s)) (look_service uuid) huuid hreg hc hwf hne hb hnd hname
 
+/-- **lookups from descriptors**: under the hypotheses of `lookup_finds_partial`, (1) the type descriptor of a field,
+argument, return type or typedef target of file `b` (stamped by the registry) resolves — `GetStructDescriptor` /
+`GetUnionDescriptor` / `GetExceptionDescriptor` — to the definition its type name denotes in `b` (nil for base and
+container names); (2) `LookupMethod(method, service, b.Filename)` returns the first method of that name of the service
+the (possibly qualified) service name denotes. -/
+theorem typedesc_and_method_lookup_finds (W : World) (uuid : Str) (root b : Ast)
+    (huuid : uuid ≠ []) (hreg : mapGet W.regs uuid = some (regAST uuid root []))
+    (hc : Coh root.subs) (hwf : WFIncl root.subs) (hne : ∀ d ∈ root.subs, d.file.filename ≠ [])
+    (hb : b ∈ root.subs) (hnd : (b.file.includes.map baseName).Nodup) (n : Str) (k v : TyO)
+    (hname : (parseAlias n).2 ≠ []) :
+    let td := uuidTy uuid (descTy b.file.filename (.mk n k v))
+    let builtin := isContainer n || isBasic n
+    td.getVia W lookStruct = (if builtin then none else
+      (denote b n File.structs StructLike.name).map (fun pd => uuidStruct uuid (descStruct pd.1 pd.2))) ∧
+    td.getVia W lookUnion = (if builtin then none else
+      (denote b n File.unions StructLike.name).map (fun pd => uuidStruct uuid (descStruct pd.1 pd.2))) ∧
+    td.getVia W lookException = (if builtin then none else
+      (denote b n File.exceptions StructLike.name).map (fun pd => uuidStruct uuid (descStruct pd.1 pd.2))) ∧
+    ∀ m : Str, lookupMethod W (mapGet W.regs uuid) b.file.filename n m =
+      (denote b n File.services Service.name).bind (fun pd =>
+        (pd.2.functions.find? (fun f => f.name = m)).map (fun f => uuidMethod uuid (descMethod pd.1 f))) := by
+  have L := lookup_finds_partial W uuid root b n huuid hreg hc hwf hne hb hnd hname
+  simp only at L
+  obtain ⟨l1, l2, l3, _, _, _, l7⟩ := L
+  refine ⟨?_, ?_, ?_, ?_⟩
+  · rw [typedesc_stamped W uuid huuid, l1]
+  · rw [typedesc_stamped W uuid huuid, l2]
+  · rw [typedesc_stamped W uuid huuid, l3]
+  · intro m
+    have hn0 : n ≠ [] := by intro e; subst e; exact hname parseAlias_snd_nil_of_nil
+    rw [lookupMethod_eq W _ _ n m hn0, l7]
+    cases denote b n File.services Service.name with
+    | none => rfl
+    | some pd => simp [method_of_stamped]
+
 def emptyFile (n : Str) (incs : List Str) (ss : List StructLike) : File :=
   { filename := n, includes := incs, namespaces := [], typedefs := [], consts := [], enums := [], structs := ss,
     unions := [], exceptions := [], services := [] }
